@@ -57,6 +57,10 @@ structure LibSpec (c : Ctx W HS) : Prop where
   baseExc : ∃ b, c.host.glob "BaseException" = some b ∧ ∀ e, c.host.isinst e b = true
   nameErr : ∃ n, c.host.glob nNameError = some n
   frame : ∃ f, c.host.glob nFrame = some f
+  globals : ∃ g, c.host.glob nGlobals = some g
+    ∧ (∀ x w, c.host.getitem g (.str x) w = (.ok ((c.host.glob x).getD .absent), w))
+    ∧ (∀ x w, c.host.binop "In" (.str x) g w = (.ok (.bool (c.host.glob x).isSome), w))
+  truthyBool : ∀ b w, c.host.truthy (.bool b) w = (.ok b, w)
 
 /-- the two states agree on everything but ptera's own variables -/
 structure Rel (c : Ctx W HS) (st' st : St W HS) : Prop where
